@@ -174,6 +174,15 @@ impl<K: Kit> Drv<K> {
             p.timeout = t;
         }
     }
+    /// the extension step (connection radius for PRM) is a public field too
+    pub fn set_step(&mut self, v: f64) {
+        match self {
+            Drv::Rrt(p) => p.max_distance = v,
+            Drv::Star(p) => p.max_distance = v,
+            Drv::Connect(p) => p.max_distance = v,
+            Drv::Prm(p) => p.connection_radius = v,
+        }
+    }
     /// the goal bias is a public field of the three tree planners
     pub fn set_goal_bias(&mut self, b: f64) {
         match self {
